@@ -274,6 +274,98 @@ func checkC15(c *Check) {
 		r3.Und("parser.(*parser).InstantiateGenericFunction", token.NoPos, "function not found")
 	}
 
+	// ---------------- R15.6 ----------------
+	// the context an instantiation is parsed in always contains what was in scope where the generic function was declared:
+	// its aliases are inserted, its operators merged and its symbols wrapped on every path, independently of the parser's state
+	r6 := c.Rule("R15.6", "the context of an instantiation always contains the declaration-site aliases, operators and symbols", 3)
+	if fi := L.Fn("src/parser.(*parser).generateGenericContext"); fi != nil {
+		info := pp.TypesInfo
+		sig := fi.Obj.Type().(*types.Signature)
+		ctxParam := sig.Params().At(0)
+		mentionsCtx := func(n ast.Node, field string) bool {
+			found := false
+			ast.Inspect(n, func(x ast.Node) bool {
+				if sel, ok := x.(*ast.SelectorExpr); ok && sel.Sel.Name == field {
+					if id, ok := ast.Unparen(sel.X).(*ast.Ident); ok && info.Uses[id] == ctxParam {
+						found = true
+					}
+				}
+				return true
+			})
+			return found
+		}
+		const (
+			fAliases = 1 << iota
+			fOps
+			fSyms
+		)
+		// aliases: a loop that inserts into the new trie the values found by searching ctx.Aliases; the facts are established by
+		// (1) a Search on ctx.Aliases, (2) an Insert inside a range over its result - tracked as: statement mentioning ctx.Aliases and
+		// a later range statement containing a call named Insert
+		g := L.CFG(fi)
+		mf := &mustFlow{G: g, Init: 0, Transfer: func(n ast.Node, s uint32) uint32 {
+			if mentionsCtx(n, "Operators") {
+				callsIn(n, func(call *ast.CallExpr) {
+					if fn := Callee(info, call); fn != nil && (fn.Name() == "Copy" || fn.Name() == "Clone") {
+						s |= fOps
+					}
+				})
+			}
+			if mentionsCtx(n, "Symbols") {
+				s |= fSyms
+			}
+			callsIn(n, func(call *ast.CallExpr) {
+				if fn := Callee(info, call); fn != nil && fn.Name() == "Insert" {
+					s |= fAliases
+				}
+			})
+			return s
+		}}
+		mf.Run()
+		// the Insert must be fed by ctx.Aliases
+		fed := false
+		ast.Inspect(fi.Decl.Body, func(n ast.Node) bool {
+			if as, ok := n.(*ast.AssignStmt); ok && len(as.Rhs) == 1 && mentionsCtx(as.Rhs[0], "Aliases") {
+				fed = true
+			}
+			return true
+		})
+		state := ^uint32(0)
+		nret := 0
+		for _, b := range g.Blocks {
+			for i, n := range b.Nodes {
+				if _, ok := n.(*ast.ReturnStmt); ok && b.Live {
+					nret++
+					state &= mf.StateAt(b, i)
+				}
+			}
+		}
+		// a range loop body is not on every path (the sequence may be empty): the Insert inside it establishes the fact for the
+		// loop as a whole, so evaluate the loop statement as one step: find range statements and check they are not inside a branch
+		insertLoopUnconditional := false
+		for _, st := range fi.Decl.Body.List {
+			if rs, ok := st.(*ast.RangeStmt); ok {
+				has := false
+				ast.Inspect(rs.Body, func(x ast.Node) bool {
+					if call, ok := x.(*ast.CallExpr); ok {
+						if fn := Callee(info, call); fn != nil && fn.Name() == "Insert" {
+							has = true
+						}
+					}
+					return true
+				})
+				if has {
+					insertLoopUnconditional = true
+				}
+			}
+		}
+		r6.Decide(fed && insertLoopUnconditional, "parser.(*parser).generateGenericContext|declaration-site aliases", fi.Decl.Pos(), "the aliases found in the declaration's context are inserted by a top-level loop of the function", "the aliases that were in scope where the generic function was declared are merged into the instantiation's alias set only on some paths (or not at all): a body that uses a non-public alias of its own module no longer parses, or silently binds to a same-worded function of the call site")
+		r6.Decide(nret > 0 && state&fOps != 0, "parser.(*parser).generateGenericContext|declaration-site operators", fi.Decl.Pos(), "operators of the declaration's context are merged on every path", "the operator overloads of the declaration site are not merged on every path")
+		r6.Decide(nret > 0 && state&fSyms != 0, "parser.(*parser).generateGenericContext|declaration-site symbols", fi.Decl.Pos(), "the symbol table wraps the declaration's symbols on every path", "the symbols of the declaration site are not part of the instantiation's scope on every path")
+	} else {
+		r6.Und("parser.(*parser).generateGenericContext", token.NoPos, "function not found")
+	}
+
 	// ---------------- R15.5 ----------------
 	r5 := c.Rule("R15.5", "instantiating a generic Kombination finds an existing instantiation by equality of all type arguments and registers every new one before returning it", 2)
 	if fi := L.Fn("src/ddptypes.GetInstantiatedStructType"); fi != nil {
